@@ -19,7 +19,8 @@ CLAIM = {
          "CallLaterTask, schedule() of one sleeping task from two threads and from a task, `with scheduler.synchronized()` incl. nesting against a stepping "
          "task and concurrent callLater): every callable runs exactly once, on the scheduler thread, in per-thread order; the woken task is never queued twice "
          "nor lost; nothing cooperative runs inside a synchronized section; no deadlock; and no wake-up is left to the polling timeout (a timed wait expires "
-         "only when no thread can run, which is a violation while work is pending).",
+         "only when no thread can run, which is a violation while work is pending)."
+         " Also (O5_pinger): the real PipePinger over a model pipe with a symbolic number of piled-up pings; in O4 a timed Lock.acquire may expire at any scheduling point and the scheduler thread must be parked while a foreign thread is inside a synchronized section.",
  'note': "Granularity is the source statement (sys.settrace line events, one point per statement), not the bytecode: races inside one statement (e.g. `x += 1`) "
          "are outside the claim, as are schedules with more preemptions than the bound. threading.Lock/Event, select and the pinger are models with their "
          "documented semantics (props/ilv.py); statements of SelectHub._select that touch only locals are not scheduling points (they commute). "
